@@ -51,6 +51,22 @@ CHECKS = {
         'Trusted: Coq kernel + vm_compute, hand-written model of utils.TextTable/_Repr/ResourceUsageReport.__repr__, harness; str() of floats/datetimes is passed in as observed text; '
         'column order of the usage table (iteration order of a Python set) is observed, not modelled.',
         '4.20'),
+    'C09': (
+        'Coq proof of an invariant of the abstract scheduling machine refined by the backward pass (deadline, dependencies incl. inherited ones, date encoding, late packing) + reflection of the boolean oracle evaluated on the implementation\'s schedules + exact differential correspondence on the dyadic grid',
+        'Theorems (Props_C09.v, closed under the global context; hypotheses WFin w, cap_nonneg, no user-fixed dates, backward = Ok): no task ends after the project end; '
+        'every own or inherited dependency has predecessor end <= successor start (also seen from below a dependant summary); both date formulas for both balance settings; '
+        'with balancing on the days between end and due date and between two work days are fully booked in the final ledger; c09_b is equivalent to the Prop statement and the model\'s output passes it. '
+        'Tie: oracle evaluated on every schedule the implementation returns, model compared exactly (dates, rows).',
+        'Trusted: Coq kernel, the hand-written scheduler model (exact integer arithmetic; float rounding modelled out; exact correspondence only on the dyadic grid), harness incl. capacity tabulation.',
+        '4.9'),
+    'C10': (
+        'Coq proof about a specification-level model of clone/subtree over the heap model (bijection, source unchanged, disjointness, link selection) + verified boolean oracle and model comparison on snapshots of the implementation; WF of the result and independence under later mutation are decided by the differential run only',
+        'Theorems (Props_C10.v, closed under the global context; hypotheses WF s, sel_ok): C10_faithful (position-wise bijection preserving ids/fields/attributes, owner, parent, sibling order, internal links as sets), '
+        'C10_clone (members = WBS.tasks), C10_source (old objects unchanged except outside tasks\' mirror lists which only gain copies), C10_disjoint, C10_subtree (links to non-selected members dropped, outside links kept to the same objects), '
+        'C10_oracle_sound. C10_wf_statement and C10_indep_statement are stated, not proved: wf_b is evaluated on every implementation post-state and both sides are mutated and compared on every case.',
+        'Trusted: Coq kernel, hand-written model of the repaired clone, harness (state builder, snapshot by identity). Dependency lists compare as sets (the code does not keep their order; the property says "same set"). '
+        'del of a built-in field before cloning is excluded.',
+        '4.10'),
 }
 
 NOT_YET = 'check not built yet in this round (planned, see DESIGN.md section 4)'
